@@ -567,6 +567,49 @@ async def update_meta(w):
         w.sched._update_meta_ready()
 
 
+def finalize_contexts():
+    """Which of the cleanup calls Builder.finalize makes inside `async with self.db` (read from the source of
+    builder.py, independently of the translator): name -> bool.  The harness calls them the same way."""
+    import ast
+
+    from . import common
+    tree = ast.parse((common.REPO / "stepup/core/builder.py").read_text())
+    out = {}
+    for cls in [n for n in ast.walk(tree) if isinstance(n, ast.ClassDef) and n.name == "Builder"]:
+        for fn in [n for n in cls.body if isinstance(n, ast.AsyncFunctionDef) and n.name == "finalize"]:
+            def visit(node, inside):
+                for child in ast.iter_child_nodes(node):
+                    ins = inside
+                    if isinstance(child, ast.AsyncWith) and any(ast.unparse(i.context_expr) == "self.db" for i in child.items):
+                        ins = True
+                    if isinstance(child, ast.Call):
+                        name = child.func.attr if isinstance(child.func, ast.Attribute) else getattr(child.func, "id", None)
+                        if name in ("revert_optional_steps", "delete_detached", "remove_deletable_files"):
+                            out[name] = ins
+                    visit(child, ins)
+            visit(fn, False)
+    return out
+
+
+async def call_cleanup(w, name, fn):
+    """Call one cleanup function of the code under test in the transactional context Builder.finalize uses for it.
+    Returns None or "ExcClass: message" when an exception escaped (recorded as the outcome of the case)."""
+    inside = finalize_contexts().get(name, False)
+    try:
+        if inside:
+            async with w.db:
+                r = fn()
+                if asyncio.iscoroutine(r):
+                    await r
+        else:
+            r = fn()
+            if asyncio.iscoroutine(r):
+                await r
+    except Exception as e:  # noqa: BLE001 - whatever the code under test raises is this case's outcome
+        return f"{type(e).__name__}: {e}"
+    return None
+
+
 def make_builder(w, reporter, do_remove_outdated=True):
     from stepup.core.builder import Builder as RealBuilder
     from stepup.core.executor import Executor
@@ -702,15 +745,16 @@ async def disk_case(rng, guard, hids, witness=None, quiet=False):
         err = None
         try:
             await builder.finalize()
-        except AssertionError as e:   # after_lost_product on a file/root
-            err = f"AssertionError: {e}"
+        except Exception as e:   # noqa: BLE001 - AssertionError: after_lost_product on a file/root; anything else: outcome too
+            err = f"{type(e).__name__}: {e}"
         res["error"] = err
         res["returncode"] = int(builder.returncode.value) if builder.returncode is not None else 0
         res["has_targets"] = bool(w.wf.targets) or bool(w.wf.target_dirs)
         res["clean"] = guard != "no-clean"
         res["events"] = client.reports
         res["removed_events"] = [d for t, d in client.reports if t == "REMOVE"]
-        res["queue_left"] = {str(k): v for k, v in w.wf.to_be_deleted.items()}
+        res["queue_left"] = {str(k): str(v) for k, v in w.wf.to_be_deleted.items()}
+        res["queue_after"] = dump_queue(w.wf, hids)
         async with w.db:
             res["after_graph"] = dump_graph(w, hids)
         res["after_fs"] = snapshot_fs(".", hids)
@@ -739,7 +783,9 @@ def finalize_check(res):
     return (f"let r := finalize {coq_ctx(res)} (init_state {g} {f}) in "
             f"fs_match {coq_fs(res['after_fs'])} (s_fs r) && strs_eqb {coq_strs(files)} (s_files r) && "
             f"strs_eqb {coq_strs(dirs)} (s_dirs r) && graph_match {coq_graph(res['after_graph'])} (s_g r) && "
-            f"Bool.eqb (s_err r) {coq_bool(res['error'] is not None)}")
+            f"Bool.eqb (s_err r) {coq_bool(res['error'] is not None)}"
+            + (f" && queue_match {coq_qfiles(res['queue_after'][0])} {coq_strs(sorted(res['queue_after'][1]))} (s_q r)"
+               if "queue_after" in res else ""))
 
 
 # ---------------------------------------------------------------------------------------------
